@@ -176,6 +176,51 @@ void h_step2(void)
 }
 #endif
 
+
+/* ------------------------------------------------------------------ P: the loop-free public wrappers
+ * push/pop at both ends, insert, erase, front, back hand the ring primitives exactly the right
+ * neighbour (the head for the front, the head's predecessor for the back, the node of the given
+ * element otherwise) and convert between elements and nodes with the list's offset; pops and
+ * front/back of an empty list return NULL without touching anything.  The primitives are replaced
+ * by contracts that record / check their arguments (their own effect: dlist.step*). */
+#if defined(VF_G_wrap) && !defined(VF_NATIVE)
+struct cstl_dlist * vf_wl; struct cstl_dlist_node * vf_wp, * vf_wn; size_t vf_wcalls_i, vf_wcalls_e;
+static void __cstl_dlist_insert(struct cstl_dlist * const l, struct cstl_dlist_node * const p, struct cstl_dlist_node * const n)
+REQUIRES(l == vf_wl && p == vf_wp && n == vf_wn)
+ASSIGNS(vf_wcalls_i)
+ENSURES(vf_wcalls_i == OLD(vf_wcalls_i) + 1)
+;
+static void * __cstl_dlist_erase(struct cstl_dlist * const l, struct cstl_dlist_node * const n)
+REQUIRES(l == vf_wl && n == vf_wn)
+ASSIGNS(vf_wcalls_e)
+ENSURES(vf_wcalls_e == OLD(vf_wcalls_e) + 1 && RESULT == (void *)((char *)n - 16))
+;
+void * nondet_ptr(void);
+void h_wrap(void)
+{
+    static struct cstl_dlist l; static struct { long a, b; struct cstl_dlist_node n; } E, PE, F, B;
+    int op = nondet_int(); void * r;
+    l.off = 16; l.size = nondet_size_t();
+    l.h.n = l.size ? &F.n : &l.h; l.h.p = l.size ? &B.n : &l.h;
+    vf_wl = &l; vf_wcalls_i = vf_wcalls_e = 0;
+    __CPROVER_assume(op >= 0 && op <= 7);
+    switch (op) {
+    case 0: vf_wp = &l.h; vf_wn = &E.n; cstl_dlist_push_front(&l, &E); VF_ASSERT(vf_wcalls_i == 1 && vf_wcalls_e == 0, "push_front: one insert after the head"); break;
+    case 1: vf_wp = l.h.p; vf_wn = &E.n; cstl_dlist_push_back(&l, &E); VF_ASSERT(vf_wcalls_i == 1 && vf_wcalls_e == 0, "push_back: one insert after the head's predecessor (the last node)"); break;
+    case 2: vf_wp = &PE.n; vf_wn = &E.n; cstl_dlist_insert(&l, &PE, &E); VF_ASSERT(vf_wcalls_i == 1 && vf_wcalls_e == 0, "insert: one insert after the node of the given element"); break;
+    case 3: vf_wn = &E.n; cstl_dlist_erase(&l, &E); VF_ASSERT(vf_wcalls_e == 1 && vf_wcalls_i == 0, "erase: one erase of the node of the given element"); break;
+    case 4: vf_wn = l.h.n; r = cstl_dlist_pop_front(&l);
+            VF_ASSERT(l.size ? (vf_wcalls_e == 1 && r == (void *)&F) : (vf_wcalls_e == 0 && r == NULL), "pop_front: the first element is erased and returned; NULL and no erase on an empty list"); break;
+    case 5: vf_wn = l.h.p; r = cstl_dlist_pop_back(&l);
+            VF_ASSERT(l.size ? (vf_wcalls_e == 1 && r == (void *)&B) : (vf_wcalls_e == 0 && r == NULL), "pop_back: the last element is erased and returned; NULL and no erase on an empty list"); break;
+    case 6: r = cstl_dlist_front(&l); VF_ASSERT(r == (l.size ? (void *)&F : NULL) && vf_wcalls_e == 0 && vf_wcalls_i == 0, "front: the first element or NULL"); break;
+    case 7: r = cstl_dlist_back(&l); VF_ASSERT(r == (l.size ? (void *)&B : NULL) && vf_wcalls_e == 0 && vf_wcalls_i == 0, "back: the last element or NULL"); break;
+    }
+    VF_REACH(op == 7, "last wrapper reached");
+    VF_END();
+}
+#endif
+
 /* ------------------------------------------------------------------ B: reference-sequence checks */
 static int vf_cmp_key(const void * a, const void * b, void * p)
 {
